@@ -509,6 +509,29 @@ def closed_world(ctx, P, tele, data, token):
                 ctx.ob("c.verdicts", "delegate|%s|%s" % (f.name, t[:60]), ok, "unrecognised way of producing the decoder verdict: " + t[:200], loc)
     ctx.anchor("`None` verdict sites", nnone, 4)
     ctx.anchor("`Some(Err)` verdict sites", nerr, 9)
+    # ---- delegation guard: a sub-decoder's "need more data" verdict on a short input is a prefix verdict only for inputs that start
+    # with one of *its* start delimiters; the dispatcher hands an input to a sub-decoder only under that start byte
+    ndel = 0
+    g = GuardAnalysis(tele, P)
+    want = {data.name: {FR["SD1"], FR["SD2"], FR["SD3"]}, token.name: {FR["SD4"]}}
+    first = lambda k: k[0] == "index" and any(x[:1] == ("arg",) for x in subterms(k[1]) if isinstance(x, tuple)) and strip_casts(k[2]) == ("const", 0)
+    # ... unless the sub-decoder itself establishes its start byte before every "need more data" verdict
+    self_guarded = {}
+    for sf in (data, token):
+        sg = GuardAnalysis(sf, P)
+        self_guarded[sf.name] = all(M.all_disj(sg.at(b, i), first, want[sf.name])[0] for b, i, kind, v in result_sites(sf, sg.tb) if kind == "None")
+    for b, c in call_sites(tele):
+        cal = c.get("callee") or ""
+        for dn, sds in want.items():
+            if cal == dn:
+                ndel += 1
+                ok, w = M.all_disj(g.at(b), first, sds)
+                ok = ok or self_guarded[dn]
+                ctx.ob("c.verdicts", "delegate-guard|%s" % ("DataTelegram" if dn == data.name else "TokenTelegram"), ok,
+                       "the dispatcher hands an input to %s without having established that it starts with one of that decoder's start "
+                       "delimiters %s: a short input with a foreign first byte gets \"need more data\" instead of a rejection (and the verdict "
+                       "flips once more bytes arrive): %s" % ("DataTelegram" if dn == data.name else "TokenTelegram", sorted(sds), w), tele.loc(b))
+    ctx.anchor("delegations from the dispatcher to a sub-decoder", ndel, 2)
 
 
 def _sub_decoder(t):
